@@ -1,11 +1,14 @@
-(* C03  Ray tracing does not depend on the subgrid layout -- layers 1 (direction tables) and 3 (neighbour wiring,
-   duplicates, folding) of the design.  Only statements, each closed by [exact] of a lemma of Cxx/C03_Proofs.v.
+(* C03  Ray tracing does not depend on the subgrid layout -- all four layers of the design:
+     1 direction tables, 3 neighbour wiring / duplicates / folding   (lemmas of Cxx/C03_Proofs.v, no axioms),
+     2 hand-over lemma, 4 layout independence                         (lemmas of Cxx/C03_TraceProofs.v, over R).
+   Only statements, each closed by [exact] of a lemma.
    gen_* are the tables REGENERATED from src/TravelDirections.hpp / src/DensitySubGrid.hpp on every run
    (Cxx/C03_Gen.v); offset_of_dir / dir_of_offset / mask_decode / ..._spec are the hand-written specification
    (Cxx/C03_Defs.v): a direction index is the encoding of an offset vector in {-1,0,1}^3 in the order of
    enum TravelDirection. *)
 From Coq Require Import ZArith List Bool.
-From CMI Require Import Cxx.C03_Defs Cxx.C03_Gen Cxx.C03_Proofs.
+From Coq Require Import Reals Floats.
+From CMI Require Import Cxx.C03_Defs Cxx.C03_Gen Cxx.C03_Proofs Cxx.C02_Defs Cxx.C02_Proofs Cxx.C03_TraceDefs Cxx.C03_TraceProofs.
 Import ListNotations.
 Local Open Scope Z_scope.
 
@@ -172,3 +175,139 @@ Theorem C03_get_copies : forall L lv i, wf L lv -> 0 <= i < nsub L ->
   get_copies L lv i = if 0 <? lvl lv i then Some (first_copy L lv i, 2 ^ lvl lv i - 1) else None.
 Proof. exact get_copies_thm. Qed.
 Print Assumptions C03_get_copies.
+
+(* ================================================================================================================
+   layers 2 and 4: a packet traced through a grid that is split into subgrids (Cxx/C03_TraceDefs.v: the loop of
+   PhotonTraversalTaskContext::execute for one packet around C02's model of DensitySubGrid::interact; geometry of the
+   subgrids as DensitySubGridCreator computes it; get_subgrid(position) for the first subgrid).  Real-number instance;
+   the binary64 instance of the same definitions is compared bit for bit with the real code on every run.
+
+   traceR L A S gc fuel ph   the trace of source packet ph through layout L of the box (anchor A, sides S) whose global
+                             cell I has contents gc I; neighbour table = the wiring model of layer 3 (subgrid_ngb L),
+                             output->input table = the REGENERATED table gen_out_to_in of layer 1.
+   source_ok L A S gc ph     wfL L; sides > 0; densities, neutral fractions, cross sections >= 0; target optical depth > 0;
+                             some direction component d_j <> 0 with cell_size_j / |d_j| < DBL_MAX (C02's premise);
+                             the packet starts in the half-open box: A <= position < A + S on every axis (on the upper
+                             face get_subgrid returns an index outside the grid).
+   same_grid L1 L2           same number of cells of the whole grid and same periodicity flag on every axis.
+   tcred L steps C           total length handed to update_intensity_counters, over all interact calls of the trace, for
+                             cells that ARE global cell C (subgrid lattice position * cells per subgrid + local index);
+                             by C02_estimators_exact every estimator of a cell grows by weight * sigma * this length.
+   EFuel                     the trace did not end within the given number of interact calls (the real loop has no bound;
+                             C03_termination_transfer: the calls needed are bounded independently of the layout).
+   ================================================================================================================ *)
+Local Open Scope R_scope.
+
+(* ---- layer 2: the hand-over lemma ----
+   For every two consecutive interact calls s1, s2 of a trace [chain (handover_ok ...)]: with o = the direction s1
+   returned, off = its offset vector, j1/j2 the lattice positions of the two subgrids:
+     s2 runs in get_neighbour(o) of s1's subgrid with input direction output_to_input_direction(o); it receives the
+     packet position and the remaining optical depth exactly as s1 left them, and that depth is > 0;
+     per axis a:  off_a says how s1's final index left the range (exit_sign);  j2 = j1 + off (mod the number of
+     subgrids; without the mod on a non-periodic axis);
+       SAME PHYSICAL POINT: start position relative to j2's anchor + j2's anchor
+                            = exit position - (number of box periods wrapped: (j1+off) div m, in {-1,0,1}) * box side;
+       START CELL [ho_axis]: it is a cell of the subgrid, contains the start point, and
+         either its index is the exit index minus off * (cells per subgrid) -- the adjacent cell across the crossed
+           plane, resp. the same cell on an axis that is not crossed -- and the ray continues strictly inside the
+           half-open cell in its direction of travel,
+         or (tie) the axis is not crossed, the direction component is negative and the point lies exactly on a cell
+           wall: truncation selects the cell above the wall (index + 1); the first iteration there has length zero
+           (this needs that wall to be reached together with the crossed plane: an edge/corner-like event). *)
+Theorem C03_handover_same_point_adjacent_cell_same_depth : forall L A S gc ph fuel, source_ok L A S gc ph ->
+  tr_end (traceR L A S gc fuel ph) <> EFuel ->
+  chain (handover_ok L A S (p_dir ph)) (tr_steps (traceR L A S gc fuel ph)).
+Proof. exact trace_handover. Qed.
+Print Assumptions C03_handover_same_point_adjacent_cell_same_depth.
+
+(* ---- layer 4: every layout is a chunking of ONE reference march ----
+   The reference (rstep/rcond in Cxx/C03_TraceProofs.v) is the loop of interact on the undivided, periodically unfolded
+   lattice of global cells: state = position relative to A, unfolded cell index I (cell contents gc (I mod N)), optical
+   depth done, visits; it ends when the target is reached or a NON-periodic index leaves [0,N).  ref_reach ... Gf: Gf is
+   the final state of that march for the packet.  The trace ends absorbed/escaped as the reference does, with the same
+   remaining depth, at the reference position folded back into the box by the period of the last visited cell, and
+   credits to every global cell what the reference credits. *)
+Theorem C03_trace_refines_reference : forall L A S gc ph fuel, source_ok L A S gc ph ->
+  let tr := traceR L A S gc fuel ph in
+  tr_end tr <> EFuel ->
+  exists Gf, ref_reach L A S gc ph Gf /\
+    ((tr_end tr = EAbsorbed /\ p_tau ph <= rs_tau Gf) \/ (tr_end tr = EEscaped /\ rs_tau Gf < p_tau ph)) /\
+    tr_tau tr = p_tau ph - rs_tau Gf /\
+    (exists Il len rest, rs_vis Gf = (Il, len) :: rest /\
+       forall a, vg a (tr_pos tr) - vg a A = vg a (rs_pos Gf) - IZR (ig a Il / NN L a) * vg a S) /\
+    (forall C, tcred L (tr_steps tr) C = rcred L (rs_vis Gf) C).
+Proof. exact trace_refines_reference. Qed.
+Print Assumptions C03_trace_refines_reference.
+
+(* the reference march is deterministic: at most one final state *)
+Theorem C03_reference_deterministic : forall csv d target kapg insideg s x y,
+  rreach csv d target kapg insideg s x -> rcond target insideg x = false ->
+  rreach csv d target kapg insideg s y -> rcond target insideg y = false -> x = y.
+Proof. exact rreach_final_unique. Qed.
+Print Assumptions C03_reference_deterministic.
+
+(* LAYOUT INDEPENDENCE, full statement: for any two layouts of the same global grid (any numbers of subgrids per axis
+   dividing the cell counts, incl. 1 and 2 subgrids on a periodic axis), the same box, the same cell contents and the
+   same source packet: the escape/absorption decision, the end position (absorption position, resp. point where the box
+   is left), the remaining optical depth and the length credited to EVERY global cell are equal.  No genericity
+   condition on the ray: zero direction components, rays inside cell-face planes, rays through cell edges and corners
+   and starts on walls are included (in exact arithmetic the only layout dependent event, the tie of layer 2, costs a
+   zero-length iteration). *)
+Theorem C03_layout_independence : forall L1 L2 A S gc ph fuel1 fuel2,
+  source_ok L1 A S gc ph -> wfL L2 -> same_grid L1 L2 ->
+  let tr1 := traceR L1 A S gc fuel1 ph in let tr2 := traceR L2 A S gc fuel2 ph in
+  tr_end tr1 <> EFuel -> tr_end tr2 <> EFuel ->
+  tr_end tr1 = tr_end tr2 /\ tr_pos tr1 = tr_pos tr2 /\ tr_tau tr1 = tr_tau tr2 /\
+  forall C, tcred L1 (tr_steps tr1) C = tcred L2 (tr_steps tr2) C.
+Proof. exact layout_independence. Qed.
+Print Assumptions C03_layout_independence.
+
+(* in particular against the undivided grid (1 x 1 x 1 subgrids holding all cells; with periodic axes it is its own
+   neighbour) *)
+Theorem C03_split_equals_undivided : forall L A S gc ph fuel1 fuel2, source_ok L A S gc ph ->
+  let tr1 := traceR L A S gc fuel1 ph in let tr2 := traceR (undivided L) A S gc fuel2 ph in
+  tr_end tr1 <> EFuel -> tr_end tr2 <> EFuel ->
+  tr_end tr1 = tr_end tr2 /\ tr_pos tr1 = tr_pos tr2 /\ tr_tau tr1 = tr_tau tr2 /\
+  forall C, tcred L (tr_steps tr1) C = tcred (undivided L) (tr_steps tr2) C.
+Proof. exact split_equals_undivided. Qed.
+Print Assumptions C03_split_equals_undivided.
+
+(* ending at all does not depend on the layout either: if the trace ends in one layout, it ends in every other layout
+   of the same grid within n+1 interact calls, n = number of reference steps *)
+Theorem C03_termination_transfer : forall L1 L2 A S gc ph fuel1,
+  source_ok L1 A S gc ph -> wfL L2 -> same_grid L1 L2 ->
+  tr_end (traceR L1 A S gc fuel1 ph) <> EFuel ->
+  exists n, forall fuel2, (n < fuel2)%nat -> tr_end (traceR L2 A S gc fuel2 ph) <> EFuel.
+Proof. exact termination_transfer. Qed.
+Print Assumptions C03_termination_transfer.
+
+(* duplicated subgrids (ties layer 3 to layer 4; every scalar instance, binary64 included): a trace that runs through
+   copies -- geometry and cell contents of the original, the copy's own neighbour table -- makes the same interact calls
+   with the same results as the trace through the originals; only the subgrid receiving the estimators differs, and it
+   is a copy of the right original (folding adds it back exactly once: C03_fold_adds_each_copy_once). *)
+Theorem C03_trace_through_copies : forall (T : Type) (Op : Ops T) L lv (A S : vec T) o2i cells, wf L lv ->
+  forall fuel sub input ph, (0 <= sub < total L lv)%Z ->
+  let t1 := trace Op L A S (original_of L lv) (ngb_at L lv) o2i cells fuel sub input ph in
+  let t2 := trace Op L A S (fun s => s) (subgrid_ngb L) o2i cells fuel (original_of L lv sub) input ph in
+  tr_end t1 = tr_end t2 /\ tr_pos t1 = tr_pos t2 /\ tr_tau t1 = tr_tau t2 /\
+  map (step_to_original L lv) (tr_steps t1) = tr_steps t2.
+Proof. exact @trace_copies. Qed.
+Print Assumptions C03_trace_through_copies.
+
+(* ---- the premises are satisfiable; an executable instance of the tie ---- *)
+Theorem C03_premises_satisfiable : source_ok ex_L ex_A ex_S ex_gc ex_ph /\ same_grid ex_L (undivided ex_L) /\ wfL (undivided ex_L).
+Proof. exact (conj ex_source_ok ex_same_grid). Qed.
+Print Assumptions C03_premises_satisfiable.
+
+(* binary64, 4 x 2 x 1 cells as 2 x 1 x 1 subgrids, from (1.5,1.5,0.5) along (1,-1,0): the packet reaches the subgrid face
+   x = 2 and the cell wall y = 1 together; it is handed over FACE_X_P -> FACE_X_N, starts in the cell above the wall
+   (cell 1), makes a zero-length iteration there and continues in cell 0; end, position and remaining depth equal those
+   of the undivided grid (all values exactly representable) *)
+Theorem C03_example_tie_handover :
+  (let t1 := f_trace_packet fx_L (mkV 0 0 0) (mkV 4 2 1) gen_out_to_in fx_cells 10%nat fx_ph in
+  let t2 := f_trace_packet (undivided fx_L) (mkV 0 0 0) (mkV 4 2 1) gen_out_to_in fx_cells 10%nat fx_ph in
+  tr_end t1 = EEscaped /\ tr_end t2 = EEscaped /\ tr_pos t1 = tr_pos t2 /\ tr_tau t1 = tr_tau t2 /\
+  fx_view t1 = [(0%Z, INSIDE, FACE_X_P, [(3%Z, 0.5)]); (1%Z, FACE_X_N, FACE_Y_N, [(1%Z, -0); (0%Z, 1)])] /\
+  fx_view t2 = [(0%Z, INSIDE, FACE_Y_N, [(3%Z, 0.5); (4%Z, 1)])])%float.
+Proof. exact f_tie_handover. Qed.
+Print Assumptions C03_example_tie_handover.
